@@ -60,7 +60,7 @@ int live_allocs;
 u8* _ZN3tbb6detail2r122cache_aligned_allocateEm(u64 n) {
   live_allocs++;
 #if REALCPP
-  if (n == sizeof(REPM) && !rep_used) { rep_used = 1; live_allocs--; return (u8*)&REPM; }
+  if (n == sizeof(REPM) && !rep_used) { rep_used = 1; live_allocs--; return (u8*)&REPM; }   /* the real allocate_bounded_queue_rep: representation + 2 monitors */
 #endif
   if (n == sizeof(rep_t) && !rep_used) { rep_used = 1; return (u8*)&REP; }
   u8* p;
@@ -71,21 +71,9 @@ u8* _ZN3tbb6detail2r122cache_aligned_allocateEm(u64 n) {
 }
 void _ZN3tbb6detail2r124cache_aligned_deallocateEPv(u8* p) { live_allocs--; VP_ASSERT(p != (u8*)&REP, "queue representation freed while the queue is alive"); free(p); }
 #if BOUNDED
-/* ---- external boundary of concurrent_bounded_queue: the r1:: entry points of src/tbb/concurrent_bounded_queue.cpp.
- * allocate_bounded_queue_rep(n): memory for the representation followed by two concurrent_monitors (never touched by the header).
- * wait_bounded_queue_monitor(monitors, tag, target, pred): concurrent_monitor::wait: returns when pred() is false; otherwise the
- *   caller sleeps (registered under context `target` on monitor `tag`) until a notification selects it, and then returns WITHOUT
- *   re-evaluating pred() (concurrent_monitor::wait returns when commit_wait() is true), exactly like the real monitor: a notify that
- *   selects the wrong sleeper therefore lets that caller proceed wrongly. The test-and-sleep step is atomic (the monitor's
- *   no-lost-wake-up guarantee, checked on the real monitor in C02).
- * notify_bounded_queue_monitor(monitors, tag, ticket): monitor.notify(predicate_leq(ticket)): wakes every sleeper of monitor `tag`
- *   whose context is <= ticket (unsigned comparison, as predicate_leq does). */
-int bq_sleeping[3]; u64 bq_tag[3], bq_target[3]; int bq_waits, bq_sleeps, bq_notifies, bq_wakes;
-int bq_woken[3], bq_aborted[3], bq_aborts; u8 TI_ABORT;
-#if !REALCPP
-u8* _ZN3tbb6detail2r126allocate_bounded_queue_repEm(u64 n) {
-  VP_ASSERT(n == sizeof(rep_t) && !rep_used, "unexpected representation size"); rep_used = 1; return (u8*)&REP;
-}
+int bq_sleeps, bq_wakes; u8 TI_ABORT;
+#if REALCPP != 2
+#error "bounded-queue units are built with REALCPP=2 (real concurrent_bounded_queue.cpp + real concurrent_monitor)"
 #endif
 #if REALCPP == 2
 struct S_class_tbb__detail__r1__concurrent_monitor MON[2];   /* see vp_q_relocate_monitors in the wrapper */
@@ -106,63 +94,6 @@ u8 _ZN3tbb6detail2d021timed_spin_wait_untilIZNS0_2r124concurrent_monitor_mutex4l
 void vpx___cxa_pure_virtual(void) { VP_ASSERT(0, "pure virtual call"); }
 void _ZdlPv(u8* p) { VP_ASSERT(0, "operator delete: nothing here is heap-allocated with new"); }
 u64 vpx_syscall(u64 nr, ...) { VP_ASSERT(0, "futex syscall: semaphore and monitor-mutex slow paths are cut in this unit"); return 0; }
-#elif REALCPP == 1
-/* REALCPP units: src/tbb/concurrent_bounded_queue.cpp is real code of the unit (wait/notify/abort wrappers, predicate_leq, allocation);
-   the boundary is concurrent_monitor_base<uintptr_t>::wait(pred, node) / notify(predicate_leq) / abort_all, with the same contracts.
-   `pred` of wait is the closure `[&]{ return !predicate(); }` built by wait_bounded_queue_monitor: one captured reference (closure->f0);
-   the stub evaluates predicate() itself (true = keep waiting). */
-static u64 mon_tag(void* m) { return m == (void*)&REPM.mon[1]; }
-void _ZN3tbb6detail2r123concurrent_monitor_baseImE4waitINS1_10sleep_nodeImEEZNS1_26wait_bounded_queue_monitorEPNS1_18concurrent_monitorEmlRNS0_2d113delegate_baseEE3__0EEbOT0_OT_(
-    struct S_class_tbb__detail__r1__concurrent_monitor_base* mon, struct S_class_anon* closure, struct S_class_tbb__detail__r1__sleep_node* node) {
-  VP_ASSERT((void*)mon == (void*)&REPM.mon[0] || (void*)mon == (void*)&REPM.mon[1], "wait on an unknown monitor");
-  u64 tag = mon_tag(mon), target = vp_node_ctx(node); struct S_class_tbb__detail__d1__delegate_base* pred = closure->f0;
-  unsigned t = vp_cur;
-#else
-void _ZN3tbb6detail2r126wait_bounded_queue_monitorEPNS1_18concurrent_monitorEmlRNS0_2d113delegate_baseE(
-    struct S_class_tbb__detail__r1__concurrent_monitor* mon, u64 tag, u64 target, struct S_class_tbb__detail__d1__delegate_base* pred) {
-  unsigned t = vp_cur;
-#endif
-#if REALCPP != 2
-  __CPROVER_assume(t < 3);
-#if ABORTS
-  if (bq_aborted[t]) { bq_aborted[t] = 0; vp_throw_user(&TI_ABORT); return; }   /* woken by abort_all: the wait throws user_abort */
-#endif
-  if (bq_woken[t]) { bq_woken[t] = 0; return; }          /* selected by a notify while asleep: concurrent_monitor::wait returns WITHOUT re-evaluating the predicate (commit_wait() == true) */
-  if (bq_sleeping[t]) { VP_BLOCK(); return; }            /* still asleep: nobody notified this sleeper */
-  bq_waits++;
-  int keep_waiting = (int)vp_call_pred(pred);
-#if ABORTS
-  if (vp_exc) return;                                    /* the predicate threw user_abort (abort counter changed): propagates out of wait */
-#endif
-  if (keep_waiting) { bq_sleeping[t] = 1; bq_tag[t] = tag; bq_target[t] = target; bq_sleeps++; VP_BLOCK(); return; }
-}
-#if ABORTS
-/* abort_bounded_queue_monitors: concurrent_monitor::abort_all on both monitors: every CURRENT sleeper is woken and its wait throws
-   user_abort (commit_wait sees my_aborted) without re-evaluating the predicate */
-void _ZN3tbb6detail2r128abort_bounded_queue_monitorsEPNS1_18concurrent_monitorE(struct S_class_tbb__detail__r1__concurrent_monitor* mon) {
-  bq_aborts++;
-  for (int t = 0; t < 3; t++) if (bq_sleeping[t]) { bq_sleeping[t] = 0; bq_aborted[t] = 1; vp_changed = 1; }
-}
-void _ZdlPv(u8* p) { VP_ASSERT(0, "operator delete: nothing here is heap-allocated with new"); }
-#endif
-#endif   /* REALCPP != 2 */
-#if REALCPP == 2
-#elif REALCPP == 1
-void _ZN3tbb6detail2r123concurrent_monitor_baseImE6notifyINS1_13predicate_leqEEEvRKT_(struct S_class_tbb__detail__r1__concurrent_monitor_base* mon, struct S_struct_tbb__detail__r1__predicate_leq* sel) {
-  bq_notifies++;
-  for (int t = 0; t < 3; t++) if (bq_sleeping[t] && bq_tag[t] == mon_tag(mon) && vp_call_leq(sel, bq_target[t])) { bq_sleeping[t] = 0; bq_woken[t] = 1; bq_wakes++; vp_changed = 1; }
-}
-#if !ABORTS
-void _ZN3tbb6detail2r123concurrent_monitor_baseImE9abort_allEv(struct S_class_tbb__detail__r1__concurrent_monitor_base* mon) { VP_ASSERT(0, "abort_all: no abort in this unit"); }
-#endif
-void vpx___cxa_pure_virtual(void) { VP_ASSERT(0, "pure virtual call"); }
-void _ZdlPv(u8* p) { VP_ASSERT(0, "operator delete: nothing here is heap-allocated with new"); }
-u64 vpx_syscall(u64 nr, ...) { VP_ASSERT(0, "futex syscall: the monitor internals are cut in this unit"); return 0; }
-#else
-void _ZN3tbb6detail2r128notify_bounded_queue_monitorEPNS1_18concurrent_monitorEmm(struct S_class_tbb__detail__r1__concurrent_monitor* mon, u64 tag, u64 ticket) {
-  bq_notifies++;
-  for (int t = 0; t < 3; t++) if (bq_sleeping[t] && bq_tag[t] == tag && bq_target[t] <= ticket) { bq_sleeping[t] = 0; bq_woken[t] = 1; bq_wakes++; vp_changed = 1; }
-}
 #endif
 #endif
 #ifndef FAULTS
@@ -321,7 +252,6 @@ int main(void) {
     for (int j = 0; j < MAXOPS; j++) if (KIND[j] == K_ABORT && H[j].inv < H[i].res) just = 1;
     VP_ASSERT(just, "push/pop threw although no abort() had been invoked");
   }
-  for (int t = 0; t < 3; t++) VP_ASSERT(!bq_aborted[t], "abort wake-up never consumed");
 #endif
   /* a failed push consumed its ticket and left an invalid slot: tail counts attempts; head + invalid entries account for the rest */
   VP_ASSERT(vp_q_invalid(&Q) <= (u64)nfailed, "more invalid entries than failed pushes");
@@ -333,7 +263,6 @@ int main(void) {
   VP_ASSERT(vp_q_tail(&Q) == (u64)(PRE_PUSH + npush + nfailed), "tail ticket != number of push attempts");
 #if BOUNDED
   VP_ASSERT(PRE_PUSH - PRE_POP + npush - npop_ok <= CAP, "more items stored than the capacity");
-  for (int t = 0; t < 3; t++) VP_ASSERT(!bq_sleeping[t] && !bq_woken[t], "a finished thread is still registered as a sleeper / has an unconsumed wake-up");
 #if REALCPP == 2
   VP_ASSERT(Q.f4 == MON, "my_monitors changed");
   for (int i = 0; i < 2; i++) VP_ASSERT(vp_mon_waiters(&Q, i) == 0 && vp_mon_closed(&Q, i) && vp_mon_mutex_free(&Q, i), "monitor not idle at quiescence: wait set not empty / list not closed / monitor mutex held");
